@@ -143,9 +143,18 @@ def coq_property(prop, theorems):
 
 # ---------------------------------------------------------------- OCaml model
 
+STALE_MODEL = [False]
+
+
 def build_ocaml():
+    """(re)build the extracted model.  If the Coq development no longer builds (a broken proof
+    obligation or translator tie) but a model binary from the last good build exists, that
+    binary is used for the witness search: the obligation failure is reported separately."""
     rc, out, _ = coq_make(["Extract.vo"])
     if rc != 0:
+        if os.path.exists(FRMODEL):
+            STALE_MODEL[0] = True
+            return
         raise BuildError("coq extraction", out)
     changed = False
     for f in ("model.ml", "model.mli"):
